@@ -472,14 +472,17 @@ FAMILY = {'C04': ('agree', 'entry points and modes agree on corpus documents and
           'C20': ('paths', 'schema.find(path(e)) has the type of the governing declaration; the errors of a part selected by a positional path are the errors of the whole document located in it'),
           'C05': ('roundtrip', 'a valid corpus document (or valid mutation) decodes, encodes in strict mode to a valid tree with the same structure (JsonML) and decodes to the same data again'),
           'C17': ('keys', 'the keys of the data decoded from a valid corpus document resolve, with the declarations the data reports, to the expanded names of the nodes'),
+          'C07': ('lazy', 'a lazy resource (the members at the streaming depth, the head known only to the root pass) gives the errors of the loaded document on the substitution / alternative / nillable feature documents',
+                  ('feature:substitution', 'feature:alternatives', 'feature:nillable')),
           'C19': ('locate', 'every error path of a mutated corpus document selects exactly error.elem')}
 
 
 def family(prop, tier, seed, open_findings):
     """result record `<prop>.corpus_<contract>` for the bounded part of a property check"""
     import shutil, tempfile
-    which, text = FAMILY[prop]
+    which, text = FAMILY[prop][:2]
     cs = cases(); n = 120 if tier == 'thorough' else 10
+    if len(FAMILY[prop]) > 2: cs = [c for c in cs if c['file'].startswith(FAMILY[prop][2])]; n *= 3
     workdir = tempfile.mkdtemp(prefix='verif-corpus-')
     try: res = pmap(eval_case, [(c, n, seed, workdir, 8, (which,)) for c in cs], chunk=1)
     finally: shutil.rmtree(workdir, ignore_errors=True)
@@ -488,6 +491,7 @@ def family(prop, tier, seed, open_findings):
         for b in r['bad']:
             if b['observed'].startswith('KNOWN:'):
                 k = b['observed'][6:]
+                if not k.startswith(prop + '-'): continue          # a difference classified under another property's listed finding: judged by that property's check
                 if k in open_findings: known[k] = known.get(k, 0) + 1; continue
                 b = dict(b, observed='root-located errors are yielded after the errors of the chunks (finding no longer listed)')
             fails.append(dict(case=dict(file=r['case']['file'], ver=r['case']['ver'], locations=r['case']['locations'], defuse=r['case']['defuse'], doc=b['doc'], mutation=b['mutation']),
@@ -501,7 +505,7 @@ def family(prop, tier, seed, open_findings):
 
 def replay(prop, case):
     import shutil, tempfile
-    which, text = FAMILY[prop]
+    which, text = FAMILY[prop][:2]
     c = dict(file=case['file'], ver=case['ver'], locations=case.get('locations'), defuse=case.get('defuse', 'remote'))
     s = build(c)
     if s is None: return dict(ok=True, observed='schema not built', required=text)
